@@ -262,6 +262,13 @@ Section Parser.
     do ds <- parse text;
     do t <- run canon glob_ok ds;
     Ok (sort_table t).
+
+  (* NewTable before /repo commit b80fb7f (del / weight did not lower-case the host);
+     used by the refutation theorems only *)
+  Definition new_table_unrepaired (canon : str -> option str) (glob_ok : str -> bool) (text : str) : outcome table :=
+    do ds <- parse text;
+    do t <- run_unrepaired canon glob_ok ds;
+    Ok (sort_table t).
 End Parser.
 
 (* strconv.ParseFloat restricted to plain decimals; anything else is outside this instance *)
